@@ -1003,6 +1003,25 @@ func (w *WAL) UnregisterObserver(id string) {
 	delete(w.observers, id)
 }
 
+// HandOverObservers registers every observer of this WAL with newWAL. It is called
+// when this WAL is replaced (rotation): without it an observer would stay attached to
+// a WAL that never receives another entry.
+func (w *WAL) HandOverObservers(newWAL *WAL) {
+	if newWAL == nil || newWAL == w {
+		return
+	}
+
+	w.observersMu.RLock()
+	defer w.observersMu.RUnlock()
+
+	for id, observer := range w.observers {
+		newWAL.RegisterObserver(id, observer)
+		if ro, ok := observer.(WALRotationObserver); ok {
+			ro.OnWALRotated(newWAL)
+		}
+	}
+}
+
 // GetNextSequence returns the next sequence number that will be assigned
 func (w *WAL) GetNextSequence() uint64 {
 	w.mu.Lock()
